@@ -699,14 +699,25 @@ fn derived_job(seed: u64, j: usize, tier: Tier) -> Outcome {
                 strat.push_str(&format!("target-port = {p}\n"));
             }
         }
-        // mode / report cycles -> max rounds
-        let mode = *r.pick(&[None, Some("stream"), Some("json"), Some("silent"), Some("pretty")]);
-        let cycles = if r.chance(1, 2) { Some(r.range(1, 50) as usize) } else { None };
-        if let Some(m) = mode {
+        // mode / report cycles -> max rounds; each of the two comes from the command line, from the
+        // file ([trippy] mode, [report] report-cycles) or from both with the command line winning
+        let mode_cli = *r.pick(&[None, Some("stream"), Some("json"), Some("silent"), Some("pretty")]);
+        let mode_file = *r.pick(&[None, None, Some("stream"), Some("json"), Some("csv"), Some("tui")]);
+        let cycles_cli = if r.chance(1, 2) { Some(r.range(1, 50) as usize) } else { None };
+        let cycles_file = if r.chance(1, 3) { Some(r.range(1, 50) as usize) } else { None };
+        let mode = mode_cli.or(mode_file).filter(|m| *m != "tui");
+        let cycles = cycles_cli.or(cycles_file);
+        if let Some(m) = mode_cli {
             argv.extend(["--mode".to_string(), m.to_string()]);
         }
-        if let Some(c) = cycles {
+        if let Some(c) = cycles_cli {
             argv.extend(["--report-cycles".to_string(), c.to_string()]);
+        }
+        if let Some(m) = mode_file {
+            toml.push_str(&format!("[trippy]\nmode = \"{m}\"\n"));
+        }
+        if let Some(c) = cycles_file {
+            toml.push_str(&format!("[report]\nreport-cycles = {c}\n"));
         }
         if !strat.is_empty() {
             toml.push_str(&format!("[strategy]\n{strat}"));
